@@ -19,7 +19,7 @@ RULE = ("level 1: a stream of 1..4 V3 packets (payload sizes 0..40 exhaustive pa
         "in chunks; after each chunk the receive queue is drained and must contain exactly the packets whose last byte lies in "
         "that chunk, in order, byte-identical. All cut sets of size <= 3 exhaustively for short streams, random cut sets, "
         "byte-by-byte, single chunk; in a quarter of the cases another protocol object of the same process was left with an unfinished packet or junk beforehand. level 2: LAN.send on an authenticated connection; send must return at the virtual time of "
-        "the chunk carrying the last byte of the first packet (also when the reply straddles a 2 s read timeout and a retransmission happens in between) and two sends together return the device's frame sequence. "
+        "the chunk carrying the last byte of the first packet (also when the reply straddles a 2 s read timeout and a retransmission happens in between) and two sends together return the device's frame sequence. level 3: the handshake reply reaches the client in two segments, before / around / after the 2 s retry deadline of LAN.authenticate (12 cut positions x 11 timings); every reply the device sent is handed to the receive queue when its last byte arrives. "
         "Non-trivial: a cut strictly inside a packet header, or >=2 packets in one chunk, or garbage present, or payload contains "
         "the marker. Distinct by (stream, cuts).")
 ASSUMPTIONS = ["garbage prefixes are marker-free (the statement's domain); a prefix may end in 0x83 only if the next byte is not 0x70"]
@@ -179,7 +179,62 @@ def check_level2(case: dict):
     return None
 
 
+def check_level3(case: dict):
+    """The handshake reply itself is a V3 packet on the stream: it reaches the client in two segments, possibly with the 2 s
+    retry deadline of LAN.authenticate (a new attempt: the request is written again) in between.  Every packet the device sent
+    must be handed to the receive queue at the time its last byte arrived."""
+    from msmart.lan import LAN
+    key = hashlib.sha256(b"c04 key").digest()
+    token = hashlib.sha512(b"c04 tok").digest()
+    net = vloop.Net()
+    out = {"delivered": []}
+
+    async def main(loop):
+        dev = SimDevice(loop, version=3, device_id=5, token=token, key=key, ac=ModelAC())
+        dev.hs_script = [("genuine", {"delay": case["delay"], "cuts": [case["cut"]], "gap": case["gap"]})]
+        net.listen("10.0.0.9", 6444, dev)
+        lan = LAN("10.0.0.9", 6444, 5)
+        lan._protocol_version = 3
+        await lan._connect()
+        q = lan._protocol._queue
+        put = q.put_nowait
+
+        def spy(item):
+            out["delivered"].append((round(loop.time(), 6), len(item)))
+            return put(item)
+        q.put_nowait = spy
+        t0 = loop.time()
+        try:
+            await lan.authenticate(token, key)
+        except Exception as e:
+            out["exc"] = e
+        import asyncio
+        await asyncio.sleep(3.0)
+        out["requests"] = [round(e.t - t0, 6) for e in dev.log if e.kind == "hs_req"]
+        out["t0"] = t0
+        lan._disconnect()
+
+    vloop.run(main, net)
+    # reference: reply k answers request k; reply 1 is complete when its second segment arrives, later replies are prompt
+    # (latency 0.05 s) but cannot overtake earlier bytes on the stream
+    first_done = case["delay"] + case["gap"]
+    want = []
+    last = 0.0
+    for k, t_req in enumerate(out["requests"]):
+        arrive = t_req + (first_done if k == 0 else 0.05)
+        arrive = max(arrive, last)
+        last = arrive
+        want.append((round(out["t0"] + arrive, 6), 72))
+    got = [(t, n) for t, n in out["delivered"]]
+    if len(got) != len(want) or any(abs(g[0] - w[0]) > 1e-4 or g[1] != w[1] for g, w in zip(got, want)):
+        return ("l3/delivery", f"handshake replies handed to the receive queue at {got}, the device's packets were complete at {want} "
+                f"(reply cut at {case['cut']}, first segment after {case['delay']} s, second {case['gap']} s later; requests at {out['requests']})")
+    return None
+
+
 def check_case(case: dict):
+    if case.get("level", 1) == 3:
+        return check_level3(case)
     if case.get("level", 1) == 2:
         return check_level2(case)
     return check_level1(case)
@@ -309,6 +364,18 @@ def run(ctx) -> None:
         return check_level2(case)
 
     ctx.hyp("l2", l2_cases, run_l2, ctx.n(300, 32000))
+
+    # level 3: the handshake reply in two segments around the 2 s retry deadline of the authentication
+    t3 = 0
+    for cut in (1, 2, 5, 6, 7, 8, 9, 30, 40, 41, 70, 71):
+        for delay, gap in ((0.05, 0.0), (0.05, 0.5), (1.0, 0.5), (1.9, 0.05), (1.9, 0.2), (1.99, 0.02), (1.5, 1.0), (0.05, 2.1), (1.9, 1.5), (1.99, 1.9), (1.0, 2.9)):
+            t3 += 1
+            if ctx.mine(t3):
+                case = {"level": 3, "cut": cut, "delay": delay, "gap": gap}
+                ctx.case(hash(("l3", cut, delay, gap)), delay + gap > 2.0, cls="l3")
+                ctx.sample("l3", case)
+                ctx.check(case, check_level3)
+    ctx.sweep("handshake reply in two segments x cut position x timing around the 2 s retry deadline", t3, True)
     # coverage-guided byte-level search (atheris/libFuzzer) over packets, marker-free garbage and cut points; an additional
     # search, the verdict never depends on it being available
     from .. import fuzzrun
